@@ -805,4 +805,440 @@ theorem tallyPure_applied {c : ChainSt} {p : String → Nat} {req : Int} {ht : N
   rw [h1] at h
   exact h4 r h
 
+/-! ### Frame: what the event handler cannot touch
+
+`VFrame h h'`: the staking view, the parameters, the height, and every chain's vote records and
+last observed nonce are the same in `h'` as in `h`. -/
+
+structure VFrame (h h' : Hub) : Prop where
+  staking : h'.staking = h.staking
+  params : h'.params = h.params
+  height : h'.height = h.height
+  records : ∀ ch, (h'.chain ch).records = (h.chain ch).records
+  last : ∀ ch, (h'.chain ch).lastObserved = (h.chain ch).lastObserved
+
+theorem VFrame.refl (h : Hub) : VFrame h h := ⟨rfl, rfl, rfl, fun _ => rfl, fun _ => rfl⟩
+
+theorem VFrame.trans {h1 h2 h3 : Hub} (a : VFrame h1 h2) (b : VFrame h2 h3) : VFrame h1 h3 :=
+  ⟨b.staking.trans a.staking, b.params.trans a.params, b.height.trans a.height,
+   fun ch => (b.records ch).trans (a.records ch), fun ch => (b.last ch).trans (a.last ch)⟩
+
+theorem VFrame.of_cs {h h' : Hub} (hcs : h'.cs = h.cs) (hs : h'.staking = h.staking)
+    (hp : h'.params = h.params) (hh : h'.height = h.height) : VFrame h h' :=
+  ⟨hs, hp, hh, fun ch => by simp [Hub.chain, hcs], fun ch => by simp [Hub.chain, hcs]⟩
+
+theorem chain_setChain_ne (h : Hub) {c c2 : String} (s : ChainSt) (hne : c ≠ c2) :
+    (h.setChain c s).chain c2 = h.chain c2 := by
+  simp [Hub.chain, Hub.setChain, alGet_alSet_other _ _ _ _ hne]
+
+theorem VFrame.setChain (h : Hub) (ch : String) {c' : ChainSt}
+    (hr : c'.records = (h.chain ch).records) (hl : c'.lastObserved = (h.chain ch).lastObserved) :
+    VFrame h (h.setChain ch c') := by
+  refine ⟨rfl, rfl, rfl, ?_, ?_⟩ <;> intro ch2 <;> by_cases e : ch = ch2
+  · subst e; rw [chain_setChain]; exact hr
+  · rw [chain_setChain_ne _ _ e]
+  · subst e; rw [chain_setChain]; exact hl
+  · rw [chain_setChain_ne _ _ e]
+
+/-- `Fr h0 m`: if the computation `m` succeeds, its result is in frame with `h0`. -/
+def Fr (h0 : Hub) (m : M Hub) : Prop := ∀ h', m = .ok h' → VFrame h0 h'
+
+theorem Fr_ok {h0 h : Hub} (hf : VFrame h0 h) : Fr h0 (.ok h) := by
+  intro h' e; injection e with e; subst e; exact hf
+theorem Fr_pure {h0 h : Hub} (hf : VFrame h0 h) : Fr h0 (pure h) := Fr_ok hf
+theorem Fr_error {h0 : Hub} (e : Err) : Fr h0 (.error e) := by intro h' e; cases e
+theorem Fr_failM {h0 : Hub} (m : String) : Fr h0 (failM m) := Fr_error _
+theorem Fr_panicM {h0 : Hub} (m : String) : Fr h0 (panicM m) := Fr_error _
+
+theorem Fr_trans {h0 h1 : Hub} {m : M Hub} (hf : VFrame h0 h1) (hm : Fr h1 m) : Fr h0 m :=
+  fun h' e => hf.trans (hm h' e)
+
+theorem Fr_bind {α : Type} {h0 : Hub} {m : M α} {f : α → M Hub}
+    (hf : ∀ a, m = .ok a → Fr h0 (f a)) : Fr h0 (m >>= f) := by
+  intro h' e
+  cases hm : m with
+  | error x => rw [hm] at e; cases e
+  | ok a => rw [hm] at e; exact hf a hm h' e
+
+theorem Fr_bindH {h0 : Hub} {m : M Hub} {f : Hub → M Hub}
+    (hm : Fr h0 m) (hf : ∀ h1, VFrame h0 h1 → Fr h0 (f h1)) : Fr h0 (m >>= f) :=
+  Fr_bind fun a ha => hf a (hm a ha)
+
+theorem Fr_ite {h0 : Hub} {c : Prop} [Decidable c] {a b : M Hub} (ha : Fr h0 a) (hb : Fr h0 b) :
+    Fr h0 (if c then a else b) := by
+  split
+  · exact ha
+  · exact hb
+
+theorem Fr_foldlM {α : Type} {h0 : Hub} {f : Hub → α → M Hub}
+    (hf : ∀ h1 x, VFrame h0 h1 → Fr h0 (f h1 x)) (l : List α) {h : Hub} (hh : VFrame h0 h) :
+    Fr h0 (l.foldlM f h) := by
+  induction l generalizing h with
+  | nil => exact Fr_pure hh
+  | cons x xs ih =>
+    rw [List.foldlM_cons]
+    exact Fr_bindH (hf h x hh) fun h1 h1f => ih h1f
+
+theorem VFrame.foldl {α : Type} {h0 : Hub} {f : Hub → α → Hub}
+    (hf : ∀ h1 x, VFrame h1 (f h1 x)) (l : List α) {h : Hub} (hh : VFrame h0 h) :
+    VFrame h0 (l.foldl f h) := by
+  induction l generalizing h with
+  | nil => exact hh
+  | cons x xs ih => exact ih (hh.trans (hf h x))
+
+theorem mintTo_Fr (h : Hub) (acc d : String) (amt : Int) : Fr h (h.mintTo acc d amt) := by
+  unfold Hub.mintTo
+  split
+  · exact Fr_failM _
+  · exact Fr_ok (VFrame.of_cs rfl rfl rfl rfl)
+
+theorem burnFrom_Fr (h : Hub) (acc d : String) (amt : Int) : Fr h (h.burnFrom acc d amt) := by
+  unfold Hub.burnFrom
+  split
+  · exact Fr_failM _
+  · split
+    · exact Fr_failM _
+    · exact Fr_ok (VFrame.of_cs rfl rfl rfl rfl)
+
+theorem setStatus_frame (h : Hub) (tx : String) (st : Nat) (o : String) : VFrame h (h.setStatus tx st o) :=
+  VFrame.of_cs rfl rfl rfl rfl
+
+theorem createSte_frame {h h' : Hub} {chain sender rcp denom tx rc ra : String} {amount fee comm : Int}
+    {id : Nat} (hok : h.createSte chain sender rcp denom amount fee comm tx rc ra = .ok (h', id)) :
+    VFrame h h' := by
+  unfold Hub.createSte at hok
+  simp only [bind, Except.bind] at hok
+  split at hok
+  · split at hok
+    · simp at hok
+    · rename_i v hv
+      simp [pure, Except.pure] at hok
+      rw [← hok.1]
+      exact (burnFrom_Fr _ _ _ _ v hv).trans (VFrame.setChain _ _ rfl rfl)
+  · simp [failM] at hok
+
+/-- The recurring `match createSte … with | .ok (h, _) => pure h | .error (.fail m) => panicM m | …`. -/
+theorem createSte_match_Fr {h0 h : Hub} (hf : VFrame h0 h)
+    (chain sender rcp denom tx rc ra : String) (amount fee comm : Int) :
+    Fr h0 (match h.createSte chain sender rcp denom amount fee comm tx rc ra with
+      | .ok (h, _) => pure h
+      | .error (.fail m) => panicM m
+      | .error e => .error e : M Hub) := by
+  split
+  · rename_i h2 _ heq
+    exact Fr_pure (hf.trans (createSte_frame heq))
+  · exact Fr_panicM _
+  · exact Fr_error _
+
+theorem handleSendToHub_Fr (h : Hub) (chain coin : String) (amount : Int) (receiver tx : String) :
+    Fr h (h.handleSendToHub chain coin amount receiver tx) := by
+  unfold Hub.handleSendToHub
+  split
+  · simp only [bind, Except.bind]
+    split
+    · exact Fr_panicM _
+    · split
+      · exact Fr_failM _
+      · split
+        · exact Fr_error _
+        · rename_i v hv
+          exact Fr_pure ((mintTo_Fr _ _ _ _ v hv).trans (setStatus_frame _ _ _ _))
+  · exact Fr_failM _
+
+theorem cancelBatch_Fr (h : Hub) (chain extToken : String) (nonce : Nat) :
+    Fr h (h.cancelBatch chain extToken nonce) := by
+  unfold Hub.cancelBatch
+  split
+  · exact Fr_panicM _
+  · split
+    · exact Fr_panicM _
+    · exact Fr_ok (VFrame.setChain _ _ rfl rfl)
+
+
+theorem Fr_panic_bind {α : Type} {h0 : Hub} (msg : String) (f : α → M Hub) :
+    Fr h0 ((panicM msg : M α) >>= f) := by
+  intro h' e; cases e
+
+/-- The do-notation join point for `if c then panicM msg` followed by the rest of the block. -/
+theorem Fr_jp {h0 : Hub} {c : Prop} [Decidable c] {e : Err} (J : Unit → M Hub)
+    (hJ : ∀ u, Fr h0 (J u)) : Fr h0 (if c then (Except.error e : M Unit) >>= J else J ()) :=
+  Fr_ite (fun _ e => by cases e) (hJ ())
+
+theorem batchExecuted_Fr (h : Hub) (chain extToken : String) (nonce : Nat) (txHash : String)
+    (feePaid : Int) (feePayer : String) :
+    Fr h (h.batchExecuted chain extToken nonce txHash feePaid feePayer) := by
+  unfold Hub.batchExecuted
+  split
+  · rename_i b _
+    refine Fr_bindH ?_ ?_
+    · refine Fr_ite ?_ (Fr_pure (VFrame.refl _))
+      exact Fr_foldlM (fun h1 x hf => Fr_trans hf (cancelBatch_Fr _ _ _ _)) _ (VFrame.refl _)
+    · intro h1 f1
+      extract_lets +onlyGivenNames c h2
+      have f2 : VFrame h h2 := f1.trans (VFrame.setChain _ _ rfl rfl)
+      split
+      · rename_i tok _
+        extract_lets +onlyGivenNames h3 totalComm totalFee
+        have f3 : VFrame h h3 := by
+          show VFrame h (List.foldl _ _ _)
+          refine VFrame.foldl ?_ _ f2
+          intro hx t
+          exact VFrame.of_cs rfl rfl rfl rfl
+        refine Fr_bindH ?_ ?_
+        · refine Fr_ite ?_ (Fr_pure f3)
+          refine Fr_bind ?_
+          intro valset _
+          extract_lets +onlyGivenNames totalPower
+          refine Fr_bindH (Fr_trans f3 (mintTo_Fr _ _ _ _)) ?_
+          intro h4 f4
+          refine Fr_foldlM ?_ _ f4
+          intro h5 v f5
+          refine Fr_jp _ ?_
+          intro u
+          extract_lets +onlyGivenNames amount
+          exact Fr_ite (Fr_pure f5) (createSte_match_Fr f5 _ _ _ _ _ _ _ _ _ _)
+        · intro h4 f4
+          refine Fr_ite (Fr_pure f4) ?_
+          refine Fr_bind ?_
+          intro base _
+          split
+          · split
+            · split
+              · rename_i pTok _
+                refine Fr_jp _ ?_
+                intro u
+                extract_lets +onlyGivenNames amount
+                refine Fr_jp _ ?_
+                intro u
+                extract_lets +onlyGivenNames fee
+                refine Fr_ite (Fr_pure f4) ?_
+                refine Fr_bindH (Fr_trans f4 (mintTo_Fr _ _ _ _)) ?_
+                intro h5 f5
+                refine Fr_bindH (createSte_match_Fr f5 _ _ _ _ _ _ _ _ _ _) ?_
+                intro h6 f6
+                extract_lets +onlyGivenNames feeLeft
+                refine Fr_ite (Fr_pure f6) ?_
+                refine Fr_bindH (Fr_trans f6 (mintTo_Fr _ _ _ _)) ?_
+                intro h7 f7
+                extract_lets +onlyGivenNames n
+                refine Fr_jp _ ?_
+                intro u
+                extract_lets +onlyGivenNames avg conv good
+                refine Fr_foldlM ?_ _ f7
+                intro h8 t f8
+                extract_lets +onlyGivenNames cf
+                refine Fr_ite (Fr_pure f8) ?_
+                refine Fr_jp _ ?_
+                intro u
+                extract_lets +onlyGivenNames toRefund
+                refine Fr_ite (Fr_pure f8) ?_
+                refine Fr_ite (Fr_pure f8) ?_
+                refine Fr_bindH (createSte_match_Fr f8 _ _ _ _ _ _ _ _ _ _) ?_
+                intro h9 f9
+                split
+                · exact Fr_panicM _
+                · exact Fr_pure (f9.trans (VFrame.of_cs rfl rfl rfl rfl))
+              · exact Fr_panicM _
+            · exact Fr_panicM _
+          · exact Fr_pure f4
+      · exact Fr_panicM _
+  · exact Fr_pure (VFrame.refl _)
+
+theorem handle_Fr (h : Hub) (mf : Bool) (chain : String) (ev : Event) : Fr h (h.handle mf chain ev) := by
+  cases ev with
+  | sendToHub n coin amount sender receiver height txHash =>
+    exact handleSendToHub_Fr _ _ _ _ _ _
+  | transfer n coin amount fee sender rchain receiver height txHash =>
+    rw [Hub.handle.eq_2]
+    refine Fr_jp _ ?_
+    intro u
+    refine Fr_ite ?_ ?_
+    · extract_lets +onlyGivenNames acc
+      refine Fr_jp _ ?_
+      intro u
+      exact handleSendToHub_Fr _ _ _ _ _ _
+    · refine Fr_bindH (handleSendToHub_Fr _ _ _ _ _ _) ?_
+      intro h1 f1
+      split
+      · split
+        · extract_lets +onlyGivenNames cAmount cFee rate comm
+          refine Fr_jp _ ?_
+          intro u
+          refine Fr_jp _ ?_
+          intro u
+          refine Fr_jp _ ?_
+          intro u
+          refine Fr_jp _ ?_
+          intro u
+          extract_lets +onlyGivenNames a1
+          refine Fr_jp _ ?_
+          intro u
+          extract_lets +onlyGivenNames a2
+          refine Fr_bind ?_
+          intro x hx
+          obtain ⟨h2, id⟩ := x
+          exact Fr_pure (f1.trans (createSte_frame hx))
+        · exact Fr_failM _
+      · exact Fr_failM _
+  | batchExecuted coin n bn height txHash feePaid feePayer =>
+    exact batchExecuted_Fr _ _ _ _ _ _ _
+  | contractCall n scope inv height => exact Fr_ok (VFrame.refl _)
+  | signerSet n sn height members txHash =>
+    exact Fr_ok (VFrame.setChain _ _ rfl rfl)
+
+/-! ### `Hub.tally` against `tallyPure` -/
+
+theorem lastPower_congr {h1 h2 : Hub} (hs : h1.staking = h2.staking) : h1.lastPower = h2.lastPower := by
+  funext v; simp [Hub.lastPower, hs]
+
+theorem requiredPower_congr {h1 h2 : Hub} (hs : h1.staking = h2.staking) (hp : h1.params = h2.params) :
+    h1.requiredPower = h2.requiredPower := by
+  simp [Hub.requiredPower, Hub.totalPower, hs, hp]
+
+theorem accepts_congr {c1 c2 : ChainSt} (hl : c1.lastObserved = c2.lastObserved) (p : String → Nat)
+    (req : Int) (r : VoteRec) : c1.accepts p req r = c2.accepts p req r := by
+  simp [ChainSt.accepts, hl]
+
+/-- One step of `Hub.tally`: the staking view, parameters and height are untouched, and the vote
+    bookkeeping of the chain moves as in one step of `tallyPure` (the handler's own writes, kept or
+    rolled back, never reach it). -/
+theorem tryRecord_spec {h h' : Hub} {mf : Bool} {chain : String} {r : VoteRec}
+    (hok : h.tryRecord mf chain r = .ok h') :
+    h'.staking = h.staking ∧ h'.params = h.params ∧ h'.height = h.height ∧
+    ∃ c', (if (h.chain chain).accepts h.lastPower h.requiredPower r then
+            c' = (h.chain chain).markObserved r h.height else c' = h.chain chain) ∧
+      (h'.chain chain).records = c'.records ∧ (h'.chain chain).lastObserved = c'.lastObserved := by
+  unfold Hub.tryRecord at hok
+  simp only [bind, Except.bind, pure, Except.pure] at hok
+  split at hok
+  · simp [panicM] at hok
+  · split at hok
+    · rename_i ha
+      injection hok with hok
+      subst hok
+      have ha' : (h.chain chain).accepts h.lastPower h.requiredPower r = false := by simpa using ha
+      exact ⟨rfl, rfl, rfl, h.chain chain, by simp [ha'], rfl, rfl⟩
+    · rename_i ha
+      have ha' : (h.chain chain).accepts h.lastPower h.requiredPower r = true := by simpa using ha
+      have hfr : VFrame (h.setChain chain ((h.chain chain).markObserved r h.height)) h' := by
+        split at hok
+        · rename_i h'' heq
+          injection hok with hok
+          subst hok
+          exact handle_Fr _ _ _ _ _ heq
+        · injection hok with hok
+          subst hok
+          exact VFrame.refl _
+      refine ⟨hfr.staking, hfr.params, hfr.height, (h.chain chain).markObserved r h.height, by simp [ha'], ?_, ?_⟩
+      · rw [hfr.records chain, chain_setChain]
+      · rw [hfr.last chain, chain_setChain]
+
+/-- `Hub.tally` does to `records` and `lastObserved` of the chain exactly what `tallyPure` does,
+    with the power table, required power and height of the hub at the start of the tally. -/
+theorem tally_fold_sim {h0 : Hub} {mf : Bool} {chain : String} (l : List VoteRec) {hk h' : Hub}
+    {acc : ChainSt × List VoteRec}
+    (hs : hk.staking = h0.staking) (hp : hk.params = h0.params) (hh : hk.height = h0.height)
+    (hr : (hk.chain chain).records = acc.1.records)
+    (hl : (hk.chain chain).lastObserved = acc.1.lastObserved)
+    (hok : l.foldlM (fun (h : Hub) r => h.tryRecord mf chain r) hk = .ok h') :
+    h'.staking = h0.staking ∧ h'.params = h0.params ∧ h'.height = h0.height ∧
+    (h'.chain chain).records = (l.foldl (tallyStep h0.lastPower h0.requiredPower h0.height) acc).1.records ∧
+    (h'.chain chain).lastObserved =
+      (l.foldl (tallyStep h0.lastPower h0.requiredPower h0.height) acc).1.lastObserved := by
+  induction l generalizing hk acc with
+  | nil =>
+    simp only [List.foldlM_nil, pure, Except.pure] at hok
+    injection hok with hok
+    subst hok
+    exact ⟨hs, hp, hh, hr, hl⟩
+  | cons r rest ih =>
+    rw [List.foldlM_cons] at hok
+    simp only [bind, Except.bind] at hok
+    split at hok
+    · cases hok
+    · rename_i h1 h1ok
+      obtain ⟨s1, p1, t1, c', hc', r1, l1⟩ := tryRecord_spec h1ok
+      simp only [List.foldl_cons]
+      have hacc : (hk.chain chain).accepts hk.lastPower hk.requiredPower r =
+          acc.1.accepts h0.lastPower h0.requiredPower r := by
+        rw [lastPower_congr hs, requiredPower_congr hs hp, accepts_congr hl]
+      rw [hacc] at hc'
+      refine ih (s1.trans hs) (p1.trans hp) (t1.trans hh) ?_ ?_ hok
+      · unfold tallyStep
+        split
+        · rename_i ha
+          rw [if_pos ha] at hc'
+          rw [r1, hc']
+          show insertByKey recKey _ (hk.chain chain).records = insertByKey recKey _ acc.1.records
+          rw [hr]
+        · rename_i ha
+          rw [if_neg ha] at hc'
+          rw [r1, hc', hr]
+      · unfold tallyStep
+        split
+        · rename_i ha
+          rw [if_pos ha] at hc'
+          rw [l1, hc']; rfl
+        · rename_i ha
+          rw [if_neg ha] at hc'
+          rw [l1, hc', hl]
+
+theorem hub_tally_refines_pure {h h' : Hub} {mf : Bool} {chain : String}
+    (hok : h.tally mf chain = .ok h') :
+    (h'.chain chain).lastObserved =
+      ((h.chain chain).tallyPure h.lastPower h.requiredPower h.height).1.lastObserved ∧
+    (h'.chain chain).records =
+      ((h.chain chain).tallyPure h.lastPower h.requiredPower h.height).1.records := by
+  unfold Hub.tally at hok
+  obtain ⟨_, _, _, hr, hl⟩ :=
+    tally_fold_sim (h0 := h) (acc := (h.chain chain, [])) _ rfl rfl rfl rfl rfl hok
+  rw [tallyPure_eq]
+  exact ⟨hl, hr⟩
+
+theorem tryRecord_total (h : Hub) (mf : Bool) (chain : String) {r : VoteRec}
+    (hnp : ¬ (r.nonce = (h.chain chain).lastObserved + 1 ∧ r.accepted = true)) :
+    ∃ h', h.tryRecord mf chain r = .ok h' := by
+  unfold Hub.tryRecord
+  simp only [bind, Except.bind, pure, Except.pure]
+  have hc : ¬ ((r.nonce == (h.chain chain).lastObserved + 1 && r.accepted) = true) := by
+    simpa using hnp
+  rw [if_neg hc]
+  split
+  · exact ⟨_, rfl⟩
+  · split <;> exact ⟨_, rfl⟩
+
+theorem tryRecord_last_mono {h h' : Hub} {mf : Bool} {chain : String} {r : VoteRec}
+    (hok : h.tryRecord mf chain r = .ok h') :
+    (h.chain chain).lastObserved ≤ (h'.chain chain).lastObserved := by
+  obtain ⟨_, _, _, c', hc', _, l1⟩ := tryRecord_spec hok
+  rw [l1]
+  split at hc'
+  · rename_i ha
+    rw [hc']
+    show _ ≤ r.nonce
+    rw [(accepts_iff.mp ha).1]; omega
+  · rw [hc']; exact Nat.le_refl _
+
+/-- `Hub.tally` cannot fail (its only error is the "already observed" panic) when the accepted
+    records it reads are not ahead of the last observed nonce. -/
+theorem tally_fold_total (mf : Bool) (chain : String) (l : List VoteRec) (hk : Hub)
+    (hacc : ∀ r ∈ l, r.accepted = true → r.nonce ≤ (hk.chain chain).lastObserved) :
+    ∃ h', l.foldlM (fun (h : Hub) r => h.tryRecord mf chain r) hk = .ok h' := by
+  induction l generalizing hk with
+  | nil => exact ⟨hk, rfl⟩
+  | cons r rest ih =>
+    rw [List.foldlM_cons]
+    have hnp : ¬ (r.nonce = (hk.chain chain).lastObserved + 1 ∧ r.accepted = true) := by
+      rintro ⟨hn, ha⟩
+      have := hacc r (by simp) ha
+      omega
+    obtain ⟨h1, h1ok⟩ := tryRecord_total hk mf chain hnp
+    have hmono := tryRecord_last_mono h1ok
+    obtain ⟨h', hok'⟩ := ih h1 (fun x hx ha => Nat.le_trans (hacc x (List.mem_cons_of_mem _ hx) ha) hmono)
+    exact ⟨h', by simp only [bind, Except.bind, h1ok]; exact hok'⟩
+
+theorem hub_tally_total {h : Hub} (mf : Bool) (chain : String) (hi : VInv (h.chain chain)) :
+    ∃ h', h.tally mf chain = .ok h' :=
+  tally_fold_total mf chain _ h hi.acc_le
+
 end Mhub2
